@@ -94,6 +94,9 @@ fn fixture(perm: Perm) -> Fixture {
     let c2 = RegisterOp::new(addr, d4, &writer);
     let forged_src = RegisterOp::new(addr, d9, &owner);
     let forged = splice_signature(&forged_src, &r1);
+    // the same entry from the same source as root1, carrying another signature (a re-signed / tampered copy): an op
+    // *different* from root1, which an open register may hold next to it
+    let resigned = splice_signature(&r1, &r2);
     let pool = vec![
         PoolOp { name: "root1/owner", op: r1, by_owner: true, by_writer: false, sig_valid: true, size_ok: true, right_address: true },
         PoolOp { name: "root2/writer", op: r2, by_owner: false, by_writer: true, sig_valid: true, size_ok: true, right_address: true },
@@ -101,6 +104,7 @@ fn fixture(perm: Perm) -> Fixture {
         PoolOp { name: "child(1,2)/writer", op: c2, by_owner: false, by_writer: true, sig_valid: true, size_ok: true, right_address: true },
         PoolOp { name: "stranger", op: RegisterOp::new(addr, d5, &stranger), by_owner: false, by_writer: false, sig_valid: true, size_ok: true, right_address: true },
         PoolOp { name: "forged-signature/owner", op: forged, by_owner: true, by_writer: false, sig_valid: false, size_ok: true, right_address: true },
+        PoolOp { name: "root1-with-another-signature", op: resigned, by_owner: true, by_writer: false, sig_valid: false, size_ok: true, right_address: true },
         PoolOp { name: "oversized(1025)/owner", op: RegisterOp::new(addr, d6, &owner), by_owner: true, by_writer: false, sig_valid: true, size_ok: false, right_address: true },
         PoolOp { name: "max-size(1024)/owner", op: RegisterOp::new(addr, d7, &owner), by_owner: true, by_writer: false, sig_valid: true, size_ok: true, right_address: true },
         PoolOp { name: "other-register/owner", op: RegisterOp::new(other_addr, d8, &owner), by_owner: true, by_writer: false, sig_valid: true, size_ok: true, right_address: false },
@@ -560,7 +564,7 @@ pub fn main(tier: Option<&str>) {
     run.rule(
         "(a) all 2^5 sub-registers of the authorised pool: every pair (verified_merge both ways) and every triple (merge) for two permission \
          settings; every permutation (+ one duplication) of every subset through RegisterCrdt::apply_op. (b) BFS, clone mode: 2(3) real \
-         SignedRegister replicas x 3 permission settings, actions Deliver(op in 9-op pool, r), Merge/verified_merge(r->s), merge with a \
+         SignedRegister replicas x 3 permission settings, actions Deliver(op in 10-op pool, r), Merge/verified_merge(r->s), merge with a \
          different base; state key = per replica the set of pool ops held. (c) BFS across the entry limit from replicas pre-filled to \
          1022..1024 entries. Non-trivial = involves at least two distinct operands.",
     );
